@@ -1,4 +1,8 @@
-"""C07 driver assignment, group blend: AOM_BLEND_A64 family, compound diffwtd masks, wedge helpers, CfL, subtract / sse / mse."""
+"""C07 driver assignment, group blend: AOM_BLEND_A64 family, compound diffwtd masks, wedge helpers, CfL, subtract / sse / mse, upsampled_pred.
+
+Domains, alphabets and call-site citations are in the header comments of the four src/kern_drv_blend*.c files.
+(svt_aom_highbd_8_mse16x16 is named mse_void_hbd8 by kern_rules_base.py, which is loaded first; the driver lives in kern_drv_blend_cfl.c.)
+"""
 
 SOURCES = ["kern_drv_blend.c", "kern_drv_blend_mask.c", "kern_drv_blend_cfl.c", "kern_drv_blend_upsampled.c"]
 _BY_NAME = {
